@@ -6,10 +6,11 @@ from pv.core import PropResult
 
 LEVEL = 'proof'
 EXPLANATION = ('K1 (string theory): _left, _right, _mid proved for every text and integer counts; LEMMA REBUILD from the two '
-               'postconditions; K-S: argument binding, & and CONCATENATE join the text forms of their operands in order; '
+               'postconditions; _excel_value_to_string (the text form of a text, a blank, a boolean, a whole number, a date) proved; '
+               'K-S: argument binding, & and CONCATENATE join the text forms of their operands in order; '
                'SEARCH and VALUE (re, chains of str.replace, strptime) are bounded only.')
 MOD = 'contracts.rt'
-K1 = ['_left', '_right', '_mid']
+K1 = ['_left', '_right', '_mid', '_excel_value_to_string']
 TABLE = [
     ('LEFT.binding', '=LEFT("abc",900001)', "self._left('abc', 900001)", ''),
     ('LEFT.default', '=LEFT("abc")', "self._left('abc', None)", 'omitted count'),
@@ -50,6 +51,8 @@ def run(ctx):
     K.canary_contract(res, MOD, '_mid', 'n_from_k',
                       'implies(I(start_num) >= 1 and I(num_chars) >= 0, is_str(result) and '
                       'S(result) == substr(text, I(start_num), max(0, min(I(num_chars), slen(text) - I(start_num) + 1))))')
+    K.canary_contract(res, MOD, '_excel_value_to_string', 'date_is_its_serial_number',
+                      'implies(is_datetime(value), result == int_text(tord(value) - 693595))')
     K.conformance(res, 'contracts.rt', CONFORMANCE)
     K.monitor_if_present(res, ctx, 'mon_c17', drop={
         'C17.value.python_only_number_syntax': 'VALUE("inf") / "nan" / "1_000": the statement speaks of numeric text only; what VALUE does '
